@@ -275,6 +275,24 @@ func init() {
 				}
 			}
 		}
+		// F. the same with a nested composite whose maximum length is tight (gen_tight.go): the two occurrences hold
+		// different subfields, each of which fits the maximum alone
+		nt := 150
+		if thorough {
+			nt = 3000
+		}
+		for i := 0; i < nt; i++ {
+			for try := 0; try < 60; try++ {
+				n2, w1, w2 := tightNested(r, genComp(r, 0))
+				if n2 == nil {
+					continue
+				}
+				if d := doubledBody(n2, w1, w2); d != nil {
+					emit(L(A("fld"), n2.term, L(op("unpack", X(d)), op("get"), op("pack"))))
+					break
+				}
+			}
+		}
 	}
 
 	generators["msg"] = func(r *Rng, tier string, emit func(*Sx)) {
